@@ -11,6 +11,7 @@ mod cases;
 mod core;
 mod findings;
 mod hashseed;
+mod mass;
 mod net;
 mod pt;
 mod rng;
